@@ -38,10 +38,14 @@ def sameMembers (a b : List Proto) : Bool := (a.all fun x => b.contains x) && (b
 def coversAll (ps : List Proto) (cs : List Cand) : Bool :=
   ps.all fun p => cs.any fun c => c.members.contains p
 
+/-- no element twice -/
+def nodupB {α : Type} [DecidableEq α] : List α → Bool
+  | [] => true
+  | x :: xs => !xs.contains x && nodupB xs
+
 /-- members are protoclusters of the record, none twice, at least one -/
 def membersOK (ps : List Proto) (cs : List Cand) : Bool :=
-  cs.all fun c => !c.members.isEmpty && (c.members.all fun m => ps.contains m) &&
-    (c.members.eraseDups.length == c.members.length)
+  cs.all fun c => !c.members.isEmpty && (c.members.all fun m => ps.contains m) && nodupB c.members
 
 /-- the location is what connecting the members' locations gives, and contains each member -/
 def locationsOK (wrap : Option Int) (cs : List Cand) : Bool :=
